@@ -30,6 +30,7 @@ def yaml_text() -> str:
              "  VINNER:", "    fields:", "      x: int16", "      y: int16",
              "  VSUB:", "    fields:", "      a: int32", "      inner: VINNER", "      b: double", "      s: char[4]", "      t: char[4]",
              "  VOTHER:", "    fields:", "      a: int32", "      inner: VINNER", "      b: double", "      s: char[4]", "      t: char[4]",
+             "  VUSS:", "    fields:", "      _x: int8[4]", "      _y: int32",
              "", "message_defs:"]
     mid = 6000
     for n in LENS:
@@ -47,6 +48,8 @@ def yaml_text() -> str:
     # definitions whose own field names are the keys of the header-plus-data layout
     lines += ["  VHD:", "    id: 6101", "    fields:", "      header: double", "      data: double"]
     lines += ["  VHD2:", "    id: 6102", "    fields:", "      header: VSUB", "      data: VSUB"]
+    # field names that begin (or begin twice, or end) with an underscore
+    lines += ["  VUS:", "    id: 6104", "    fields:", "      _a: int32", "      __b: int16", "      _c_: int16", "      d_: double", "      _n: VUSS", "      _arr: VUSS[2]"]
     lines += ["  VHD3:", "    id: 6103", "    fields:", "      data: int16[2]", "      header: char[4]", "      more: int32"]
     return "\n".join(lines) + "\n"
 
